@@ -219,13 +219,22 @@ def run_neutral(case):
     if case["layout"] == "one":
         atoms = build.build_peptide([x, "ALA", x])
         ends = {1: "n", 3: "c"}
+    elif case["layout"] == "hidden":
+        # two peptides sharing one chain id, no TER: the first ends in OXT
+        a = build.build_peptide([x, "ALA", x], chain="A")
+        b = build.build_peptide([x, "GLY", x], chain="A", start=4,
+                                origin=(0.0, 0.0, 20.0))
+        for at in b:
+            at["res_idx"] += 3
+        atoms = a + b
+        ends = {1: "n", 3: "c", 4: "n", 6: "c"}
     else:
         a = build.build_peptide([x, "ALA", x], chain="A")
         b = build.build_peptide([x, "GLY", x], chain="B", start=11,
                                 origin=(0.0, 0.0, 20.0))
         atoms = a + b
         ends = {1: "n", 3: "c", 11: "n", 13: "c"}
-    text = build.pdb_text(atoms)
+    text = build.pdb_text(atoms, ter=(case["layout"] != "hidden"))
     base = pipeline.run(text, ["--ff=PARSE"])
     res["evals"] += 1
     if not base.ok:
@@ -311,6 +320,6 @@ def enumerate_cases(tier, seed):
                                       "opts": opts, "where": where,
                                       "seq": seq, "records": records})
     for x in T.AMINO:
-        for layout in ("one", "two"):
+        for layout in ("one", "two", "hidden"):
             cases.append({"mode": "neutral", "x": x, "layout": layout})
     return cases
